@@ -34,7 +34,7 @@ QString genCategory()
 {
     static const char alpha[] = "ab.x+($*[";
     QString s;
-    int n = pick(0, 8);
+    int n = chance(8) ? pick(20, 45) : pick(0, 8); // long categories make many-wildcard patterns expensive for a backtracking matcher
     for (int i = 0; i < n; i++) {
         if (chance(5))
             s.append(QChar(ushort(0x00e9)));
@@ -48,8 +48,18 @@ QString genCategory()
 // a rule pattern derived from the probed category, so that overlaps and near-misses are frequent
 QString derivePattern(const QString &cat)
 {
-    int r = pick(0, 9);
+    int r = pick(0, 11);
     const int L = cat.size();
+    if (r == 10) { // many wildcards: a '*' (or a run of them) between all characters - still matches the category
+        QString p;
+        const int run = chance(50) ? 1 : pick(2, 12);
+        for (int i = 0; i < L; i++) { p += QString(run, QChar('*')); p += cat[i]; }
+        return p + "*";
+    }
+    if (r == 11) { // a long run of '*' around an infix
+        int i = pick(0, L), j = pick(i, L);
+        return QString(pick(3, 30), QChar('*')) + cat.mid(i, j - i) + QString(pick(3, 30), QChar('*'));
+    }
     if (r == 0) return cat.isEmpty() ? QStringLiteral("*") : cat;                          // exact
     if (r == 1) return cat.left(pick(0, L)) + "*";                                        // prefix*
     if (r == 2) return "*" + cat.mid(pick(0, L));                                         // *suffix
